@@ -340,6 +340,11 @@ func c01(c *Ctx) {
 	c01EnumByName(c)
 	r.Rule("R01.Q", "the hint queue is advanced before the hinted vector is read: decodeRegisteredObject removes the hint it takes from Decoder.expectedTypes before it calls popVector, whose elements may be hinted vectors themselves and must find their own hint at the head", 1)
 	c01HintQueue(c)
+	r.Rule("R01.B", "no function of package tl writes through a []byte parameter: decoding leaves the input bytes alone, encoding leaves the value's byte strings alone", 4)
+	c.paramsUntouched("R01.B", load.TLPkg, func(g *ssa.Function, idx int) bool {
+		// (*Decoder).read(buf) is the one function whose argument is the buffer to fill
+		return g.Name() == "read" && load.FuncPkgPath(g) == load.TLPkg
+	})
 	r.Rule("R01.R", "the decoder walks nested values recursively: no list kept in a field of the Decoder and filled by one activation is read after a call that may re-enter it", 1)
 	c.noScratchAcrossReentry("R01.R", "Decoder")
 	r.Rule("R01.V", "the decoder admits what the encoder emits: the count / length sanity bounds of popVector and PopRawBytes pass for every honest (size, bytes left) pair of the grid, and depend on nothing else", 2)
